@@ -18,6 +18,7 @@ mod c20;
 mod content;
 mod driver;
 mod faults;
+mod fsepre;
 mod rng;
 mod runner;
 mod seams;
@@ -253,6 +254,29 @@ fn main() {
                     println!("skew {skew} len {len}: out {} entropy {:.3} bits/byte", out.len(), ent);
                 }
             }
+            0
+        }
+        "debug-seqpre" => {
+            let mut r = rng::Rng::new(index);
+            let (mut total, mut valid, mut with_pre, mut ok_lib, mut nseq) = (0, 0, 0, 0, 0usize);
+            for _ in 0..3000 {
+                let s = synth::gen_valid(&mut r, 8192);
+                total += 1;
+                let b = synth::build(&s, &[], [1, 4, 8]);
+                if let Ok(d) = &b.expect {
+                    valid += 1;
+                    let pre: usize = s.blocks.iter().map(|b| if let synth::SynthBlock::SeqPre { seqs, .. } = b { seqs.len() } else { 0 }).sum();
+                    if pre > 0 {
+                        with_pre += 1;
+                        nseq += pre;
+                        match workload::ref_decompress(&b.bytes, None) {
+                            Ok(x) if &x == d => ok_lib += 1,
+                            other => println!("MISMATCH {:?}", other.map(|x| x.len())),
+                        }
+                    }
+                }
+            }
+            println!("specs {total} model-valid {valid} with predefined-mode sequences {with_pre} ({nseq} sequences) libzstd agrees {ok_lib}");
             0
         }
         "debug-hunt" => {
